@@ -111,6 +111,7 @@ func C16(p *load.Prog, r *oblig.Run) {
 	c16FreshAppend(p, r)
 	c16ReflectSlices(p, r)
 	c16Stateless(p, r)
+	c16NoIdentity(p, r)
 	c16Variables(p, r)
 	ops, err := extractOperators(p)
 	if err != nil {
